@@ -65,7 +65,10 @@ def w1(ctx, rid):
         for t in prog.resolve(c):
             if t in prog.fns and any('update_checksum' in x or 'crc32' in x for x in [t] + sorted(L.get(t, ()))):
                 crc_ok = True
-    if good and crc_ok:
+    fresh = [c for c in f.calls if c.bb in f.reachable() and c.name in ('new', 'default') and (c.path.startswith('record::record::Header') or any(t.startswith('record::record::Header::') or t.startswith('<record::record::Header as') for t in prog.resolve(c)))]
+    if fresh:
+        ctx.bad(rid, key, fresh[0].where(), 'the tools\' record writer builds a fresh record header (`%s`) instead of re-stamping the one that was read: fields that are not passed on (the deletion flag) are lost - after recovery deletion markers are live empty records and deleted keys reappear' % fresh[0].name)
+    elif good and crc_ok:
         ctx.ok(rid, key, stamps[0].where(), 'blob_offset = writer position and header CRC recomputed before the header is serialised')
     elif not crc_ok:
         ctx.bad(rid, key, stamps[0].where(), 'blob_offset is stamped but the header checksum is not recomputed: the written header fails validation')
